@@ -11,8 +11,6 @@ package main
 // action is Pass; then the profiles; one program per (direction, IP family).
 //
 // Deliberately not modelled / not checked here:
-//   - log rules inside profiles are removed before compiling: the builder panics on them (C11 finding
-//     builder-panics:log-action-in-profile); a log rule never changes a verdict;
 //   - the leg is the policy program: the packet state is filled in as the TC programs would for TCP/UDP
 //     and, for SCTP, with the packet's ports (the TC parser itself does not extract SCTP ports);
 //   - no NAT (pre-NAT == post-NAT destination), traffic is neither from nor to the host.
@@ -50,16 +48,6 @@ type bpfLeg struct {
 }
 
 func (l *bpfLeg) Name() string { return "bpf" }
-
-func noLog(rs []*proto.Rule) []*proto.Rule {
-	var out []*proto.Rule
-	for _, r := range rs {
-		if !strings.EqualFold(r.Action, "log") {
-			out = append(out, r)
-		}
-	}
-	return out
-}
 
 func bpfRules(l *rulegen.Layout, dir refpolicy.Direction) polprog.Rules {
 	id := uint64(0)
@@ -110,7 +98,7 @@ func bpfRules(l *rulegen.Layout, dir refpolicy.Direction) polprog.Rules {
 		if dir == refpolicy.Egress {
 			rs = p.Outbound
 		}
-		r.Profiles = append(r.Profiles, polprog.Profile{Kind: "Profile", Name: p.Name, Rules: wrap(noLog(rs))})
+		r.Profiles = append(r.Profiles, polprog.Profile{Kind: "Profile", Name: p.Name, Rules: wrap(rs)})
 	}
 	r.NoProfileMatchID = next()
 	return r
